@@ -21,7 +21,8 @@ def sh(cmd, cwd=None, env=None, timeout=1800):
 def main():
     d = os.path.abspath(sys.argv[1])
     meta = json.load(open(os.path.join(d, 'meta.json')))
-    ids = [a for a in sys.argv[2:] if not a.startswith('--')] or [meta['property']]
+    # (meta 'also_checks': neighbouring properties whose checks own the clause that the change happens to break as well)
+    ids = [a for a in sys.argv[2:] if not a.startswith('--')] or [meta['property']] + list(meta.get('also_checks', []))
     if '--all' in sys.argv:
         ids = ALL
     wt = tempfile.mkdtemp(prefix='seedeval_', dir='/tmp')
